@@ -420,6 +420,7 @@ type harness struct {
 	c       *core.Ctx
 	sampled map[string]bool
 	kept    []retained // results delivered earlier (see retain)
+	dead    map[string]bool // plugin functions whose calls do not return any more
 }
 
 // sample keeps one real case per (stream kind, outcome class) for the evidence.
@@ -429,6 +430,9 @@ func (h *harness) sample(kind, outcome string, tg *target, args []interface{}) {
 		return
 	}
 	h.sampled[k] = true
+	if h.dead[tg.name] {
+		return
+	}
 	ret, err, _, _, _ := callAdapter(tg, args)
 	h.c.Sample(k, map[string]interface{}{"function": tg.name, "args": showArgs(args), "result": show(ret), "error": fmt.Sprint(err), "outcome": outcome})
 }
@@ -473,7 +477,32 @@ func callAdapter(tg *target, args []interface{}) (ret interface{}, err error, ke
 // class (for the evidence counters).
 func (h *harness) judge(stream string, idx int, tg *target, args []interface{}) string {
 	c := h.c
-	ret, err, key, msg, panicked := callAdapter(tg, args)
+	var ret interface{}
+	var err error
+	var key, msg string
+	var panicked bool
+	if tg.class == "plugin-real" {
+		// functions of the real plugin are called on a watched goroutine: a call
+		// that never returns must not take the whole check with it
+		if h.dead[tg.name] {
+			return "skipped-after-blocked-call"
+		}
+		var blocked bool
+		var wit string
+		ret, err, key, msg, panicked, blocked, wit = h.watchedCall(tg, args)
+		if blocked {
+			h.dead[tg.name] = true
+			if wit == "" {
+				c.Inconclusive("a plugin call did not return and no witness was found", stream, idx, map[string]interface{}{"function": tg.name})
+				return "blocked-no-witness"
+			}
+			h.violation("plugin-call-blocked", "a call of a plugin function never returns: it is parked on a lock of the bridge that nobody holds (left locked by an earlier call)", stream, idx, tg, args,
+				map[string]interface{}{"goroutine": wit})
+			return "blocked"
+		}
+	} else {
+		ret, err, key, msg, panicked = callAdapter(tg, args)
+	}
 	if panicked {
 		h.violation(key, "a panic escaped ECALFunctionAdapter.Run: "+strings.SplitN(msg, "\n", 2)[0], stream, idx, tg, args, map[string]interface{}{"panic": msg})
 		return "panic"
@@ -676,7 +705,7 @@ func argsOf(vec []int) []interface{} {
 
 // Run is the check.
 func Run(c *core.Ctx) {
-	h := &harness{c: c, sampled: map[string]bool{}}
+	h := &harness{c: c, sampled: map[string]bool{}, dead: map[string]bool{}}
 	c.Note("rule", "stdlib.ECALFunctionAdapter around every generated stdlib entry (stdlib.GetStdlibSymbols; reference: the Go math function called directly) and around the synthetic Go functions of funcs.go (identity for all 13 numeric kinds and 5 named numeric types, 0..4 mixed parameters, interface{}/[]interface{}/map/string/bool/error/Stringer parameters, variadic, 0..3 results incl. interface-wrapped numbers, (T, error), 9 panicking functions, 6 plugin-style functions through the AddStdlibPluginFunc shape) x all argument vectors of length 0..3 over a 20-value universe (exhaustive) + random vectors of length 4..5; identity functions x 69 boundary numbers; the same functions called from ECAL source (c19.name(u1,u2) / math.name(...)) for all vectors of length 0..2 + random longer ones, compared with the direct adapter call. "+
 		"Reference: arity and Go assignability decide whether an error is demanded; numbers for numeric parameters are converted with Go's T(x) (no verdict when Go leaves T(x) undefined or an argument is NULL); results are the direct call's results with integers/floats as float64. "+
 		"Non-trivial = distinct (function, argument vector) pairs with a definite expectation that was met (result equal to the direct call, Go error delivered, error for an ill-formed call). Math order/exponent arguments beyond +-1000 for jn/yn/pow10/ldexp/inf are skipped.")
@@ -832,6 +861,9 @@ func (h *harness) throughECAL(ts []*target) {
 
 func (h *harness) judgeECAL(erp *interpreter.ECALRuntimeProvider, stream string, idx int, tg *target, args []interface{}) string {
 	c := h.c
+	if h.dead[tg.name] {
+		return "skipped-after-blocked-call"
+	}
 	names := make([]string, len(args))
 	vs := scope.NewScope(scope.GlobalScope)
 	for i, a := range args {
